@@ -123,11 +123,30 @@ Proof.
 Qed.
 
 (* ---------------- the whole checker ---------------- *)
-Theorem check_case_model c : version_ok (ver_of c) = true -> check_case c (run_case c) = true.
+Theorem check_one_model c : version_ok (ver_of c) = true -> check_one c (run_one c) = true.
 Proof.
-  intros Hver. unfold check_case, run_case. rewrite dec_outcome_enc.
+  intros Hver. unfold check_one, run_one. rewrite dec_outcome_enc.
   unfold check_outcome, serve. destruct (accept (req_of c)) as [a|] eqn:Ha; [|reflexivity].
   destruct (environ_total _ a Ha) as [e He]. rewrite He.
   rewrite (check_env_model _ a e Ha He).
   rewrite (check_resp_model (ver_of c) (req_of c) a (app_of c) Hver). reflexivity.
+Qed.
+
+(* ---------------- sequences on one container ---------------- *)
+Lemma container_run_map ver st l : container_run ver st l = map (fun ro => serve ver (fst ro) (snd ro)) l.
+Proof. induction l as [|ro l IH]; [reflexivity|]. cbn [container_run container_step map]. rewrite IH. reflexivity. Qed.
+
+(* the k-th outcome is that of the k-th request alone, whatever came before and after *)
+Theorem container_stateless ver pre r o post :
+  nth_error (container_run ver tt (pre ++ (r, o) :: post)) (List.length pre) = Some (serve ver r o).
+Proof.
+  rewrite container_run_map, map_app. rewrite nth_error_app2 by (rewrite map_length; apply Nat.le_refl).
+  rewrite map_length, Nat.sub_diag. reflexivity.
+Qed.
+
+Theorem check_case_model c : version_ok (fst c) = true -> check_case c (run_case c) = true.
+Proof.
+  destruct c as [ver steps]. cbn [fst]. intros Hver. unfold check_case, run_case, steps_of. cbn [fst snd].
+  rewrite container_run_map, map_map. induction steps as [|s steps IH]; [reflexivity|].
+  cbn [map check_all fst snd]. rewrite IH, andb_true_r. exact (check_one_model (one_of ver s) Hver).
 Qed.
